@@ -14,10 +14,10 @@ import (
 // that are large (tens of thousands of operations). The oracle is the same
 // reference map; only the comparison is streamed instead of materialised.
 //
-//   stage N unique keys (+ overwrite / delete some of them inside the batch)
-//   -> nothing may be visible while staged
-//   -> Reset | abandon : nothing visible afterwards
-//   -> Write           : exactly the batch's net effect visible, in key order
+//	stage N unique keys (+ overwrite / delete some of them inside the batch)
+//	-> nothing may be visible while staged
+//	-> Reset | abandon : nothing visible afterwards
+//	-> Write           : exactly the batch's net effect visible, in key order
 func runBigBatch(c *core.Ctx, cfg caseCfg) {
 	r := c.Rng
 	tag := cfg.Backend
